@@ -32,6 +32,7 @@ EXPLANATION = (
     "_update_labels / the dataset constructor passed through "
     "utils.convert_targets_column (or is a dataset's own boolean targets). "
     "(c) direction honoured downstream (FLAG): each element of descs given "
+    "Also: the best-feature record of a model is assigned only in Model.__init__ / Model.fit (who-may-write, setattr loops included); the learned scores' count is a total over all collections; the label definition of C01d is a clause here too. "
     "to assign_confidence must influence the ranking. NOT decided: whether "
     "training fails for a given dataset.")
 TECHNIQUE = ("def-use term matching + source/sanitiser/sink taint over call "
